@@ -100,6 +100,18 @@ def predicate_list(n1: str, a1: int, n2: str, a2: int, two: bool) -> List[Predic
     return _plist(s)
 
 
+def predicate_keyword_name(head: int, suf: int, a1: int) -> List[Predicate]:
+    """
+    pre: 0 <= head <= 3 and 0 <= suf <= 3 and head + suf >= 1
+    pre: 0 <= a1 <= 9
+    post: __return__ == [Predicate(["", "a", "b", "_"][head] + "auto" + ["", "a", "b", "_"][suf], a1)]
+    raises: ArgumentTypeError
+    """
+    # names around the option keyword; the characters are picked by symbolic integers because CrossHair's model of
+    # split/strip on a symbolic string that embeds a literal gave a counterexample that does not reproduce
+    return _plist(["", "a", "b", "_"][head] + "auto" + ["", "a", "b", "_"][suf] + "/" + str(a1))
+
+
 def predicate_special(which: int) -> object:
     """
     pre: 0 <= which <= 2
@@ -128,7 +140,7 @@ class _Parser:
         return self.ns
 
 
-def _run_main(values: List[str], in_value: object, out_value: object, k: int):
+def _run_main(values: List[str], in_value: object, out_value: object, k: int, stms: object = None):
     ns = Namespace(log="ERROR")
     VerifyEnable(option_strings=["--enable"], dest="enable", nargs="+")(None, ns, list(values), None)
     PredicateList(option_strings=["--input-predicates"], dest="input_predicates", nargs="?")(None, ns, in_value, None)
@@ -140,7 +152,7 @@ def _run_main(values: List[str], in_value: object, out_value: object, k: int):
     def fake_opt(prg, i, o, **kw):
         captured.update(kw)
         seen[0], seen[1] = i, o
-        return ["s%d" % j for j in range(k)]
+        return list(stms) if stms is not None else ["s%d" % j for j in range(k)]
 
     saved = (M.get_parser, M.parse_files, M.optimize, M.logging.basicConfig, M.auto_detect_input, M.auto_detect_output)
     M.get_parser = lambda: _Parser(ns)
@@ -184,6 +196,14 @@ def main_print(k: int) -> List[str]:
     post: __return__ == ["s%d" % i for i in range(k)]
     """
     return _run_main(["none"], "", "", k)[3]
+
+
+def main_print_repeated(codes: List[int]) -> List[str]:
+    """
+    pre: len(codes) <= 3 and all(0 <= c <= 1 for c in codes)
+    post: __return__ == ["s%d" % c for c in codes]
+    """
+    return _run_main(["none"], "", "", 0, ["s%d" % c for c in codes])[3]
 
 
 def parser_predicates(n1: List[int], a1: int, out: bool) -> List[Predicate]:
